@@ -60,6 +60,8 @@ VALUE_RULES = {
     "C20.c": "kind-flow facts (letter vs index) and Image.slice folded per dimension",
     "C20.b": "signed permutations of the layout helpers",
 }
+# value rules that compare algebraic terms: a term that still contains a call of a private helper is outside the rule's vocabulary (report.Ctx.ob)
+ALGEBRA_RULES = {"C01.b", "C02.b", "C05.c", "C08.c", "C09.a", "C09.b", "C12.a", "C14.e", "C19.c"}
 GENERIC_VALUE_SUFFIXES = {
     ".state": "process-wide state: write events and key coverage",
 }
